@@ -139,7 +139,33 @@ func HarnessC18Valid() {
 // HarnessC18Special: unusual but legal inputs on which the generator must not panic.
 func HarnessC18Special() {
 	root := &schemas.Type{Type: schemas.TypeList{"object"}, Properties: map[string]*schemas.Type{}}
-	switch zzvrt.Choice(3) {
+	defs := schemas.Definitions{}
+	switch zzvrt.Choice(9) {
+	case 3, 4, 5, 6, 7, 8:
+		// recursive reference graphs: generation must terminate whichever way the cycle is closed
+		node := &schemas.Type{Type: schemas.TypeList{"object"}, Properties: map[string]*schemas.Type{"name": {Type: schemas.TypeList{"string"}}}}
+		self := func() *schemas.Type { return &schemas.Type{Ref: "#/$defs/Node"} }
+		extra := &schemas.Type{Type: schemas.TypeList{"object"}, Properties: map[string]*schemas.Type{"weight": {Type: schemas.TypeList{"number"}}}}
+		how := []string{"direct", "array-items", "map-values", "anyOf-branch", "allOf-branch", "through-a-second-definition"}[zzvrt.Choice(6)]
+		switch how {
+		case "direct":
+			node.Properties["child"] = self()
+		case "array-items":
+			node.Properties["child"] = &schemas.Type{Type: schemas.TypeList{"array"}, Items: self()}
+		case "map-values":
+			node.Properties["child"] = &schemas.Type{Type: schemas.TypeList{"object"}, AdditionalProperties: self()}
+		case "anyOf-branch":
+			node.Properties["child"] = &schemas.Type{AnyOf: []*schemas.Type{self(), extra}}
+		case "allOf-branch":
+			zzvrt.Note("known-if-panic=allOf-branch-referring-to-enclosing-definition-never-terminates")
+			node.Properties["child"] = &schemas.Type{AllOf: []*schemas.Type{self(), extra}}
+		default:
+			node.Properties["child"] = &schemas.Type{Ref: "#/$defs/Other"}
+			defs["Other"] = &schemas.Type{Type: schemas.TypeList{"object"}, Properties: map[string]*schemas.Type{"back": self()}}
+		}
+		zzvrt.Cover("special:recursive-reference/" + how)
+		defs["Node"] = node
+		root.Properties["root"] = self()
 	case 0:
 		zzvrt.Note("known-if-panic=self-reference-to-root-panics")
 		zzvrt.Cover("special:self-ref-property")
@@ -154,7 +180,7 @@ func HarnessC18Special() {
 		zzvrt.Cover("special:empty-property-name")
 		root.Properties[""] = &schemas.Type{Type: schemas.TypeList{"string"}}
 	}
-	sch := &schemas.Schema{ObjectAsType: (*schemas.ObjectAsType)(root), ID: "https://example.com/root"}
+	sch := &schemas.Schema{ObjectAsType: (*schemas.ObjectAsType)(root), ID: "https://example.com/root", Definitions: defs}
 	g, err := New(Config{DefaultPackageName: "example.com/gen", DefaultOutputName: "root.go", Warner: func(string) {},
 		Tags: []string{"json", "yaml", "mapstructure"}})
 	if err != nil {
